@@ -42,6 +42,12 @@ vsa("C24", "For terms over variables annotated with strided intervals, TLC evalu
     "Depth-1 shapes over all well-formed pairs at width <= 2, sliced at width 3, plus a fixed term catalogue.")
 vsa("C25", "constraint_to_si(c) -> (sat, [(expr, bound)]): if some assignment satisfies c then sat must be True and under every satisfying assignment every expr lies in gamma(bound); all shapes x comparisons x constants at width <= 4, annotated variables, And/Or/Not combinations.",
     "constraint_to_si exceptions are recorded, not judged.")
+CHECKS["C06"] = dict(engine="store", cat="model_checking", tech="TLA+ state machine of the hash-cons store (ExprStore.tla: Build / Annotate / BVVk / Drop; invariants Inj, Faithful, RefLive, Closed, Canon) explored by TLC; behaviours replayed on the real claripy and validated by TLC (TraceStore.tla)",
+  text="TLC explores every interleaving of builds, annotations, BVV constructions and weak-reference deaths over five alphabets of structural keys whose annotation contents collide under Python's hash() (-1/-2, 2^61-1/0, 2^61/1, low-16-bit twins, constant-__hash__ classes, equal-field RegionAnnotations, keys differing in one component incl. width); one history per reachable state is replayed on the real store (strong reference per live id, Drop = del + gc.collect()); after every step the identity partition and the serialised nodes are recorded together with the request, and TLC checks Inj (same key iff same object) and Faithful (what came back has the requested key). Pools of <= 2000 expressions from the expression streams are checked pairwise as well.",
+  note="Bounds: <= 6 live nodes, <= 8 steps per alphabet; the as-coded reading of the model only predicts, verdicts come from the recorded runs.", ref="5 C06")
+CHECKS["C07"] = dict(engine="annot", cat="exploration", tech="TLA+ annotation contract (TraceAnnot.tla over Term.tla: UnelimOK, unelim-moved, RelocOK with relocate() images, simplify top/reloc, solver avoid clause) evaluated by TLC on recorded constructions",
+  text="Depth <= 2 trees at width 2 with every leaf and inner node decorated with each subset of eliminatable / uneliminatable / relocatable test annotations (own id per node, relocatable ones in a verbatim and a tagging flavour), the shortcut paths (If with constant condition, x+0, x^x, x&0, Extract of Concat ...), explicit claripy.simplify and Solver.simplify with SimplificationAvoidanceAnnotation: TLC checks that no sub-expression carrying a non-eliminatable non-relocatable annotation disappears, every relocatable annotation of an argument is on the result, simplify keeps top annotations, and protected constraints are unchanged.",
+  note="Explicit remove/clear of annotations is outside the clause. Known shortcut-path defects are exact sets + predicates.", ref="5 C07")
 SOLVER_TECH = "TLA+ abstract solver algebra (SolverAbs.tla) + trace validation by TLC (TraceSolver.tla) of recorded histories on the real frontends"
 SOLVER_NOTE = "Trusted: TLC, Term.tla semantics, Z3 inside claripy only as the system under test. Variables of width <= 3 so TLC enumerates every model; histories are seeded-random (length <= 10 + probe battery) over fixed constraint alphabets, REUSE_Z3_SOLVER on and off."
 def solver(pid, text, cat="model_checking", ref=None):
@@ -89,6 +95,8 @@ def main():
                   "source_commits": [], "add_only": True},
         "engines": [
             {"name": "expr", "path": "harness/eng_expr.py", "serves_properties": ["C01", "C04", "C05"], "kind_free_text": "construction events -> TLC (TraceExpr.tla) constant-level trace validation against Term.tla"},
+            {"name": "store", "path": "harness/eng_store.py", "serves_properties": ["C06"], "kind_free_text": "ExprStore.tla exploration -> replay -> TraceStore.tla"},
+            {"name": "annot", "path": "harness/eng_annot.py", "serves_properties": ["C07"], "kind_free_text": "annotated constructions -> TraceAnnot.tla"},
             {"name": "util", "path": "harness/eng_util.py", "serves_properties": ["C08", "C09"], "kind_free_text": "utility / simplify events -> TLC (TraceExpr.tla + UtilSem.tla)"},
             {"name": "truth", "path": "harness/eng_truth.py", "serves_properties": ["C10"], "kind_free_text": "truth-query histories -> TLC (TraceExpr.tla)"},
             {"name": "fp", "path": "harness/eng_fp.py", "serves_properties": ["C02"], "kind_free_text": "fold/solve events -> TLC (TraceFP.tla) against FP.tla"},
